@@ -95,18 +95,35 @@ def _task(t):
         vb = val_bits(ctx, fn)
         ws = bpa.analyse(mod, fname, lambda: ([Ptr(FC.PDU, 0), ev, Ptr(VAL, 0)],
                                               {FC.PDU: Region(FC.PDU, 'sym', hl), VAL: Region(VAL, 'sym', vb // 8)}),
-                         max_worlds=4, gcache=ctx.gcache)
-        cur = FC.getter_call(ctx, f, fld, 'id')[1]
+                         max_worlds=16, gcache=ctx.gcache)
+        gfn = ctx.fn(f['get_field'])
+        Wg = FC.param_width(mod, gfn, 1)
+        cur = bpa.analyse(mod, f['get_field'], lambda: ([Ptr(FC.PDU, 0), ctx.enum_value(fld['enum']) & B.mask(Wg)],
+                                                        {FC.PDU: Region(FC.PDU, 'sym', hl)}), max_worlds=16, gcache=ctx.gcache)
         where = FC.fnloc(ctx, fname)
         key = '%s:legacy-get:%s' % (fmt, fld['name'])
-        if len(ws) != 1 or ws[0].status != 'ok' or len(cur) != 1 or cur[0]['status'] != 'ok':
-            return [('undecided', key, '%s field %s: %s' % (where, fld['enum'], [w.reason for w in ws] + [c['reason'] for c in cur]))]
-        w = ws[0]
+        wl, e1 = FC.ok_worlds(ws)
+        wc, e2 = FC.ok_worlds(cur)
+        if e1 or e2:
+            return [('undecided', key, '%s field %s: %s' % (where, fld['enum'], e1 or e2))]
+        res_ok = None
+        for w, c, dec in FC.world_pairs(wl, wc):
+            with FC.with_world(dec):
+                r1 = _cmp_get(ctx, f, fld, fname, where, key, vb, w, c)
+            if r1[0][0] != 'ok':
+                return r1
+            res_ok = r1
+        return res_ok or [('undecided', key, '%s field %s: no feasible combination of worlds' % (where, fld['enum']))]
+    return _task_rest(t, ctx, mod, kind, fmt, idx, f, leg, hl)
+
+
+def _cmp_get(ctx, f, fld, fname, where, key, vb, w, c):
+        mod = ctx.mod
         got = mem_value(ctx, w.regions[VAL], vb // 8)
         if got is None:
             return [('violation', key + ':unset', '%s: field %s: the result variable is not (fully) written on success' % (where, fld['enum']))]
         R = FC.ret_width(mod, ctx.fn(f['get_field']))
-        want = B.to_bits(cur[0]['ret'], R)
+        want = B.to_bits(c.ret, R)
         want = tuple(want[:vb]) + (0,) * max(0, vb - R)
         st, info = FC.compare_vec(got, want, vb)
         if st == 'differs':
@@ -122,6 +139,10 @@ def _task(t):
             return [('violation', key + ':writes', '%s: field %s: the legacy reader writes the PDU' % (where, fld['enum']))]
         return [('ok', key, {'legacy': fname, 'current': f['get_field'], 'field': fld['enum'],
                              'stored_value': B.fmt_vec(got, vb) if fld['width'] <= 8 else '(%d PDU bits, identical)' % fld['width']})]
+
+
+def _task_rest(t, ctx, mod, kind, fmt, idx, f, leg, hl):
+    out = []
     if kind == 'set':
         fld = f['fields'][idx]
         fname = leg['set']
@@ -130,31 +151,39 @@ def _task(t):
         ev = ctx.enum_value(fld['enum']) & B.mask(W)
         Pl = FC.param_width(mod, fn, 2)
         ws = bpa.analyse(mod, fname, lambda: ([Ptr(FC.PDU, 0), ev, bpa.sym_arg('v', Pl)], {FC.PDU: Region(FC.PDU, 'sym', hl)}),
-                         max_worlds=4, gcache=ctx.gcache)
+                         max_worlds=16, gcache=ctx.gcache)
         cfn = ctx.fn(f['set_field'])
         Wc = FC.param_width(mod, cfn, 1)
         Pc = FC.param_width(mod, cfn, 2)
         v = bpa.sym_arg('v', Pl)
         vc = tuple(v[:Pc]) + (0,) * max(0, Pc - Pl)
         cs = bpa.analyse(mod, f['set_field'], lambda: ([Ptr(FC.PDU, 0), ctx.enum_value(fld['enum']) & B.mask(Wc), vc],
-                                                       {FC.PDU: Region(FC.PDU, 'sym', hl)}), max_worlds=4, gcache=ctx.gcache)
+                                                       {FC.PDU: Region(FC.PDU, 'sym', hl)}), max_worlds=16, gcache=ctx.gcache)
         where = FC.fnloc(ctx, fname)
         key = '%s:legacy-set:%s' % (fmt, fld['name'])
-        if len(ws) != 1 or ws[0].status != 'ok' or len(cs) != 1 or cs[0].status != 'ok':
-            return [('undecided', key, '%s field %s: %s' % (where, fld['enum'], [w.reason for w in ws + cs]))]
-        n = max([hl] + [o + 1 for o in ws[0].regions[FC.PDU].writes | cs[0].regions[FC.PDU].writes])
-        a = pdu_image(ws[0].regions[FC.PDU], n)
-        b = pdu_image(cs[0].regions[FC.PDU], n)
-        for o in range(n):
-            st, info = FC.compare_vec(a[o], B.to_bits(b[o], 8), 8)
-            if st == 'differs':
-                return [('violation', key + ':bytes',
-                         '%s: field %s: octet %d after the legacy write is %s, after %s it is %s; witness: %s'
-                         % (where, fld['enum'], o, B.fmt_vec(a[o], 8), f['set_field'], B.fmt_vec(b[o], 8), FC.fmt_env(info[1])))]
-            if st == 'unknown':
-                return [('undecided', key, '%s field %s: octet %d undetermined' % (where, fld['enum'], o))]
-        if ws[0].ret != 0:
-            return [('violation', key + ':ret', '%s: field %s: returns %r for valid arguments' % (where, fld['enum'], ws[0].ret))]
+        wl, e1 = FC.ok_worlds(ws)
+        wc, e2 = FC.ok_worlds(cs)
+        if e1 or e2:
+            return [('undecided', key, '%s field %s: %s' % (where, fld['enum'], e1 or e2))]
+        npairs = 0
+        for wA, wB, dec in FC.world_pairs(wl, wc):
+            npairs += 1
+            with FC.with_world(dec):
+                n = max([hl] + [o + 1 for o in wA.regions[FC.PDU].writes | wB.regions[FC.PDU].writes])
+                a = pdu_image(wA.regions[FC.PDU], n)
+                b = pdu_image(wB.regions[FC.PDU], n)
+                for o in range(n):
+                    st, info = FC.compare_vec(a[o], B.to_bits(b[o], 8), 8)
+                    if st == 'differs':
+                        return [('violation', key + ':bytes',
+                                 '%s: field %s: octet %d after the legacy write is %s, after %s it is %s; witness: %s'
+                                 % (where, fld['enum'], o, B.fmt_vec(a[o], 8), f['set_field'], B.fmt_vec(b[o], 8), FC.fmt_env(info[1])))]
+                    if st == 'unknown':
+                        return [('undecided', key, '%s field %s: octet %d undetermined' % (where, fld['enum'], o))]
+            if wA.ret != 0:
+                return [('violation', key + ':ret', '%s: field %s: returns %r for valid arguments' % (where, fld['enum'], wA.ret))]
+        if not npairs:
+            return [('undecided', key, '%s field %s: no feasible combination of worlds' % (where, fld['enum']))]
         return [('ok', key, None)]
     if kind == 'init':
         fname = leg['init']
@@ -179,24 +208,29 @@ def _task(t):
         else:
             largs = lambda: [Ptr(FC.PDU, 0)]
             cur = f['init']['fn']
-        ws = bpa.analyse(mod, fname, lambda: (largs(), {FC.PDU: Region(FC.PDU, 'sym', hl)}), max_worlds=4, gcache=ctx.gcache)
-        cs = bpa.analyse(mod, cur, lambda: ([Ptr(FC.PDU, 0)], {FC.PDU: Region(FC.PDU, 'sym', hl)}), max_worlds=4, gcache=ctx.gcache)
-        if len(ws) != 1 or ws[0].status != 'ok' or len(cs) != 1 or cs[0].status != 'ok':
-            return [('undecided', key, '%s: %s' % (where, [w.reason for w in ws + cs]))]
-        n = max([hl] + [o + 1 for o in ws[0].regions[FC.PDU].writes | cs[0].regions[FC.PDU].writes])
-        a = pdu_image(ws[0].regions[FC.PDU], n)
-        b = pdu_image(cs[0].regions[FC.PDU], n)
-        for o in range(n):
-            st, info = FC.compare_vec(a[o], B.to_bits(b[o], 8), 8)
-            if st == 'differs':
-                return [('violation', key + ':bytes',
-                         '%s: octet %d after the legacy initialiser is %s, after %s%s it is %s; witness: %s'
-                         % (where, o, B.fmt_vec(a[o], 8), f['init']['fn'], ' + ' + extra + ' setter' if extra else '',
-                            B.fmt_vec(b[o], 8), FC.fmt_env(info[1])))]
-            if st == 'unknown':
-                return [('undecided', key, '%s: octet %d undetermined' % (where, o))]
-        if ws[0].ret != 0:
-            return [('violation', key + ':ret', '%s: returns %r for a valid PDU' % (where, ws[0].ret))]
+        ws = bpa.analyse(mod, fname, lambda: (largs(), {FC.PDU: Region(FC.PDU, 'sym', hl)}), max_worlds=16, gcache=ctx.gcache)
+        cs = bpa.analyse(mod, cur, lambda: ([Ptr(FC.PDU, 0)], {FC.PDU: Region(FC.PDU, 'sym', hl)}), max_worlds=16, gcache=ctx.gcache)
+        wl, e1 = FC.ok_worlds(ws)
+        wc, e2 = FC.ok_worlds(cs)
+        if e1 or e2:
+            return [('undecided', key, '%s: %s' % (where, e1 or e2))]
+        n = hl
+        for wA, wB, dec in FC.world_pairs(wl, wc):
+            with FC.with_world(dec):
+                n = max([hl] + [o + 1 for o in wA.regions[FC.PDU].writes | wB.regions[FC.PDU].writes])
+                a = pdu_image(wA.regions[FC.PDU], n)
+                b = pdu_image(wB.regions[FC.PDU], n)
+                for o in range(n):
+                    st, info = FC.compare_vec(a[o], B.to_bits(b[o], 8), 8)
+                    if st == 'differs':
+                        return [('violation', key + ':bytes',
+                                 '%s: octet %d after the legacy initialiser is %s, after %s%s it is %s; witness: %s'
+                                 % (where, o, B.fmt_vec(a[o], 8), f['init']['fn'], ' + ' + extra + ' setter' if extra else '',
+                                    B.fmt_vec(b[o], 8), FC.fmt_env(info[1])))]
+                    if st == 'unknown':
+                        return [('undecided', key, '%s: octet %d undetermined' % (where, o))]
+            if wA.ret != 0:
+                return [('violation', key + ':ret', '%s: returns %r for a valid PDU' % (where, wA.ret))]
         return [('ok', key, {'legacy': fname, 'current': f['init']['fn'] + (' then ' + extra if extra else ''),
                              'verdict': 'identical %d-octet image' % n})]
     raise ValueError(kind)
